@@ -79,6 +79,33 @@ def targets(p):
     return out
 
 
+T_NS = "{urn:oasis:names:tc:opendocument:xmlns:text:1.0}"
+
+
+def ws_items(h):
+    """the children of a container that holds only text and white-space elements, in the notation of the `ws` driver
+    (T<code points> / S<n> / TAB / LB); None when it holds anything else"""
+    out = []
+    if h.text:
+        out.append(("T", h.text))
+    for ch in h:
+        if ch.tag == T_NS + "s":
+            out.append(("S", int(ch.get(T_NS + "c", "1"))))
+        elif ch.tag == T_NS + "tab":
+            out.append(("TAB", None))
+        elif ch.tag == T_NS + "line-break":
+            out.append(("LB", None))
+        else:
+            return None
+        if ch.tail:
+            out.append(("T", ch.tail))
+    return out
+
+
+def enc_ws_items(items) -> str:
+    return " ".join(("T" + enc_str(v)) if k == "T" else (f"S{v}" if k == "S" else k) for k, v in items)
+
+
 def rebuilt_hosts(le, rx):
     """lxml elements under `le` (itself included, its tail excluded) that are a paragraph / heading / span and host a text node (their text, or
     the tail of one of their children) in which the pattern matches: the containers replace(formatted=True) has to re-encode"""
@@ -216,6 +243,7 @@ def run(chk: core.Check) -> None:
                     el = dict(targets(p))[tname]
                     t0 = snapshot(el, labels, other)
                     hosts = rebuilt_hosts(pt.lxml_of(el), rx) if formatted else []
+                    hosts_before = [ws_items(h) for h in hosts]
                     out0 = outside_text(p, el, labels, other)
                     case = {"xml": xml0, "target": tname, "pattern": pat, "new": new, "formatted": formatted}
                     chk.case((xml0, tname, pat, new, formatted), nontrivial=nontriv)
@@ -257,10 +285,25 @@ def run(chk: core.Check) -> None:
                         # every container hosting a match is encoded like a freshly created paragraph / heading / span
                         if not check_rebuilt(chk, case, hosts, fresh_of, labels, other):
                             continue
+                        # correspondence of the rebuild itself with the Lean model (Para/Ws.appendPlainText on the existing content):
+                        # text nodes after the substitution, white-space elements as they were, re-encoded by append_plain_text("")
+                        for h, before in zip(hosts, hosts_before):
+                            after = ws_items(h)
+                            if before is None or after is None:
+                                continue
+                            sub = [(k, rx.sub(new.replace("\\", "\\\\"), v) if k == "T" else v) for k, v in before]
+                            sub = [(k, v) for k, v in sub if not (k == "T" and v == "")]
+                            chk.count("rebuild vs model", "containers sent")
+                            reqs.append(("ws rebuild " + enc_ws_items(sub), "ok " + enc_ws_items(after), {**case, "clause": "rebuild-model", "before_rebuild": [list(x) for x in sub]}))
                         if out0 != outside_text(p, el, labels, other):
                             chk.fail({**case, "clause": "neighbouring-text"}, "replace(formatted=True) on an inner element changed text outside it")
     answers = core.run_driver([q for q, _, _ in reqs])
     for (q, exp, case), ans in zip(reqs, answers):
+        if q.startswith("ws rebuild "):
+            got = ans.split(" | ")[0]
+            if got.strip() != exp.strip():
+                chk.disagree({**case, "line": q[:300]}, f"rebuilt container: impl {exp[:300]!r} != model of append_plain_text on the existing content {got[:300]!r}")
+            continue
         if exp != drop_empty(ans):
             chk.disagree({**case, "line": q[:500]}, f"impl {exp[:300]!r} != model {ans[:300]!r}")
 
